@@ -298,6 +298,38 @@ def gen_neuron(r, kind=None, units='rand', nmax=8):
 
 
 OWN = object()
+INT_DTYPES = ['int64', 'int32', 'uint32']
+
+
+def int_dtype(d, values):
+    """numpy dtype for the coordinate arrays of an integer-typed neuron description (`d['dtype']`); unsigned only when no
+    value is negative; None for the default float arrays"""
+    dt = d.get('dtype')
+    if not dt:
+        return None
+    flat = [v for row in values for v in (row if isinstance(row, (list, tuple)) else [row])]
+    if any(float(v) != int(v) for v in flat):
+        return None
+    if dt.startswith('uint') and any(v < 0 for v in flat):
+        dt = dt[1:]
+    return np.dtype(dt)
+
+
+def intify(r, d, dtype=None):
+    """turn a neuron description into one with integer-valued, integer-typed coordinates (and radii)"""
+    d = dict(d, dtype=dtype or r.choice(INT_DTYPES))
+    if d['k'] == 'T':
+        d['rows'] = [[w[0], w[1], int(round(w[2])), int(w[3]), int(w[4])] for w in d['rows']]
+        d['radii'] = [r.choice([1, 2, 3]) for _ in d['rows']]
+    elif d['k'] == 'D':
+        d['points'] = [[int(round(c)) for c in p_] for p_ in d['points']]
+    elif d['k'] == 'M':
+        d['verts'] = [[int(round(c * 4)) for c in v] for v in d['verts']]
+    return d
+
+
+# operands whose result on integer coordinates is not an integer
+INT_SCAL = [3, 0.5, 2.5, 1.5, 7, 125, 0.3]
 
 
 def build(d, units=OWN):
@@ -309,11 +341,16 @@ def build(d, units=OWN):
                            'parent_id': np.array([w[1] for w in rows], dtype=np.int64),
                            'x': np.array([w[2] for w in rows], dtype=float), 'y': np.array([w[3] for w in rows], dtype=float),
                            'z': np.array([w[4] for w in rows], dtype=float), 'radius': np.array(d['radii'], dtype=float)})
+        dt = int_dtype(d, [w[2:5] for w in rows] + [d['radii']])
+        if dt is not None:          # integer-typed coordinate / radius columns (e.g. voxel coordinates)
+            for c in ('x', 'y', 'z', 'radius'):
+                df[c] = df[c].astype(dt)
         n = navis.TreeNeuron(df, units=u, name=d['name'], id=d['id'])
     elif k == 'M':
-        n = navis.MeshNeuron((np.array(d['verts'], dtype=float), np.array(d['faces'])), units=u, name=d['name'], id=d['id'])
+        dt = int_dtype(d, d['verts'])
+        n = navis.MeshNeuron((np.array(d['verts'], dtype=dt or float), np.array(d['faces'])), units=u, name=d['name'], id=d['id'])
     elif k == 'D':
-        p = np.array(d['points'], dtype=float)
+        p = np.array(d['points'], dtype=int_dtype(d, d['points']) or float)
         vect = np.tile(np.array([1.0, 0, 0]), (len(p), 1))
         n = navis.Dotprops(p, k=None, vect=vect, alpha=np.ones(len(p)), units=u, name=d['name'], id=d['id'])
     else:
@@ -469,6 +506,13 @@ def voxel_world(x):
     return np.asarray(x.voxels, dtype=float) * np.asarray(x.units_xyz.magnitude, dtype=float) + np.asarray(x.offset, dtype=float)
 
 
+INT_DP_SIG = 'Dotprops.arithmetic/integer-points/result-truncated'
+
+
+def int_points(x, kind):
+    return kind == 'D' and np.issubdtype(np.asarray(x.points).dtype, np.integer)
+
+
 def case_arith(ctx, case):
     d, op, f = case['neuron'], case['op'], case['factor']
     kind = d['k']
@@ -495,6 +539,11 @@ def case_arith(ctx, case):
     ctx.count('arith', f"{kind}/{op}/{f['shape']}/{'raises' if y is None else ('exact' if exact else 'tol')}")
     # input never modified (cheap sanity for the correspondence itself)
     ctx.corr(xin, wire(x, kind), f'{CLS[kind]} {op}: operand neuron modified', case)
+    if y is not None and int_points(x, kind) and ans.get('corr') != 'ok':
+        ctx.count('arith', 'D/integer-points/truncated')
+        ctx.oracle(False, f'Dotprops {op} {f} on integer-typed points ({np.asarray(x.points).dtype}): the result is written back into '
+                          f'the integer array and truncated: impl={out} expected={ans.get("model")}', case, signature=INT_DP_SIG)
+        return
     ctx.corr('ok', ans.get('corr'), f"{CLS[kind]}.{op} {f} vs model: impl={out} model={ans.get('model')}", case)
     if y is None:
         return
@@ -573,6 +622,12 @@ def case_convert(ctx, case):
     ans = parse_answer(ctx.ask(f'c15.convert {tgt} {p} {TOL} {TOL} | {xin} | {out}'))
     ctx.count('convert', f"{kind}/{'dimless' if dimless else ('aniso' if not x.is_isometric else 'iso')}/"
                          f"{'raises' if y is None else 'ok'}")
+    if y is not None and int_points(x, kind) and ans.get('corr') != 'ok':
+        ctx.count('convert', 'D/integer-points/truncated')
+        ctx.oracle(False, f'Dotprops.convert_units({tname!r}) on integer-typed points ({np.asarray(x.points).dtype}): the converted '
+                          f'coordinates are written back into the integer array and truncated: impl={out} expected={ans.get("model")}',
+                   case, signature=INT_DP_SIG)
+        return
     ctx.corr('ok', ans.get('corr'), f"{CLS[kind]}.convert_units({tname}) vs model: impl={out} model={ans.get('model')}", case)
     ctx.corr(xin, wire(x, kind), f'{CLS[kind]}.convert_units: input modified', case)
     if dimless:
@@ -1060,12 +1115,31 @@ def gen_cases(ctx):
         kind = KINDS[i % 4]
         op = r.choice(['mul', 'mul', 'div', 'div', 'add', 'sub'])
         nd = gen_neuron(r, kind)
-        yield 'arith', {'neuron': nd, 'op': op, 'factor': gen_factor(r, kind, op in ('mul', 'div')),
-                        'inplace': r.random() < 0.25}
+        fac = gen_factor(r, kind, op in ('mul', 'div'))
+        if kind in 'TMD' and (i // 4) % 4 == 0:
+            # integer-typed tables (voxel coordinates): operands with non-integer results make a truncation visible
+            nd = intify(r, nd, INT_DTYPES[(i // 16) % 3])
+            if nd['units'] is not None and nd['units'][0] in ('str', 'qty', 'unit') and r.random() < 0.7:
+                nd['units'] = r.choice([['str', '8 nm'], ['str', 'nm'], ['str', '4 nanometers'], ['str', '16 nm']])
+            if op in ('mul', 'div'):
+                if fac['shape'] == 's':
+                    fac['vals'], fac['cont'] = [r.choice(INT_SCAL)], 'num'
+                else:
+                    fac['vals'] = [r.choice(INT_SCAL + [2, 1]) for _ in fac['vals']]
+            else:
+                fac['vals'] = [r.choice([0.5, 2.5, -0.25, 1.5]) for _ in fac['vals']]
+                if fac['shape'] == 's':
+                    fac['cont'] = 'num'
+        yield 'arith', {'neuron': nd, 'op': op, 'factor': fac, 'inplace': r.random() < 0.25}
     # (c) convert_units
     for i in range(ctx.budget(250, 2500)):
         kind = KINDS[i % 4]
-        yield 'convert', {'neuron': gen_neuron(r, kind), 'target': list(r.choice(TARGETS[:10] if i % 7 else TARGETS)),
+        nd = gen_neuron(r, kind)
+        if kind in 'TMD' and (i // 4) % 3 == 0:
+            nd = intify(r, nd, INT_DTYPES[(i // 12) % 3])
+            nd['units'] = r.choice([['str', '8 nm'], ['str', 'nm'], ['str', '4 nanometers'], ['str', '16 nm'], ['str', '0.5 um'],
+                                    ['tuple', [['str', '4 nm'], ['str', '4 nm'], ['str', '40 nm']]]])
+        yield 'convert', {'neuron': nd, 'target': list(r.choice(TARGETS[:10] if i % 7 else TARGETS)),
                           'inplace': r.random() < 0.3}
     # (d) map_units
     for i in range(ctx.budget(300, 3000)):
